@@ -42,6 +42,11 @@ pub fn exports(r: &mut Rec) {
     });
     r.q_i("to_signed_bytes_le", "method", "", 0, |a| Ret::none().bytes("bytes", &a.to_signed_bytes_le()));
     r.q_i("to_signed_bytes_be", "method", "", 0, |a| Ret::none().bytes("bytes", &a.to_signed_bytes_be()));
+    // the num_traits::ToBytes forms (plain magnitude bytes for BigUint, two's complement for BigInt)
+    r.q_u("to_bytes_le", "trait_to_le_bytes", "", 0, |a| Ret::none().bytes("bytes", &num_traits::ToBytes::to_le_bytes(a)));
+    r.q_u("to_bytes_be", "trait_to_be_bytes", "", 0, |a| Ret::none().bytes("bytes", &num_traits::ToBytes::to_be_bytes(a)));
+    r.q_i("to_signed_bytes_le", "trait_to_le_bytes", "", 0, |a| Ret::none().bytes("bytes", &num_traits::ToBytes::to_le_bytes(a)));
+    r.q_i("to_signed_bytes_be", "trait_to_be_bytes", "", 0, |a| Ret::none().bytes("bytes", &num_traits::ToBytes::to_be_bytes(a)));
     // collect() of the iterators, forwards and reversed
     r.q_u("iter_collect", "u32_fwd", "\"w\":4,\"rev\":false", 0, |a| Ret::none().bytes("bytes", &flat32(&a.iter_u32_digits().collect::<Vec<_>>())));
     r.q_u("iter_collect", "u32_rev", "\"w\":4,\"rev\":true", 0, |a| Ret::none().bytes("bytes", &flat32(&a.iter_u32_digits().rev().collect::<Vec<_>>())));
@@ -69,6 +74,22 @@ pub fn imports_bytes(r: &mut Rec, bytes: &[u8], sign: Sign) {
     });
     r.op("from_bytes_be", "I", &[], &[i(2)], &format!("\"bytes\":{},\"sgn\":{}", bytes_json(&be), sgn_num(sign)), |g| {
         g.i[2] = BigInt::from_bytes_be(sign, &be);
+        Ret::none()
+    });
+    r.op("from_bytes_le", "U_trait_from_le_bytes", &[], &[u(2)], &format!("\"bytes\":{}", bj), |g| {
+        g.u[2] = <BigUint as num_traits::FromBytes>::from_le_bytes(bytes);
+        Ret::none()
+    });
+    r.op("from_bytes_be", "U_trait_from_be_bytes", &[], &[u(2)], &format!("\"bytes\":{}", bytes_json(&be)), |g| {
+        g.u[2] = <BigUint as num_traits::FromBytes>::from_be_bytes(&be);
+        Ret::none()
+    });
+    r.op("from_signed_bytes_le", "I_trait_from_le_bytes", &[], &[i(2)], &format!("\"bytes\":{}", bj), |g| {
+        g.i[2] = <BigInt as num_traits::FromBytes>::from_le_bytes(bytes);
+        Ret::none()
+    });
+    r.op("from_signed_bytes_be", "I_trait_from_be_bytes", &[], &[i(2)], &format!("\"bytes\":{}", bytes_json(&be)), |g| {
+        g.i[2] = <BigInt as num_traits::FromBytes>::from_be_bytes(&be);
         Ret::none()
     });
     r.op("from_signed_bytes_le", "I", &[], &[i(2)], &format!("\"bytes\":{}", bj), |g| {
